@@ -2,7 +2,7 @@ SPECIFICATION MSpec
 CONSTANTS
   Acc = {"a", "b", "c"}
   Members = {"a", "b", "c"}
-  MaxMsgs = 1
+  MaxMsgs = 2
   MaxFaults = 1
   MaxOpen = 1
   MaxRetries = 1
